@@ -27,7 +27,7 @@ VERIF = Path(__file__).resolve().parent.parent
 REPO = Path(os.environ.get("VERIF_REPO", "/repo"))
 SPEC = VERIF / "spec"
 WORK = VERIF / ".work"
-EVID = VERIF / "evidence"
+EVID = Path(os.environ.get("VERIF_EVIDENCE_DIR", str(VERIF / "evidence")))
 JAR = "/opt/veriftools/tla/tla2tools.jar:/opt/veriftools/tla/CommunityModules-deps.jar"
 NCPU = os.cpu_count() or 4
 
@@ -189,7 +189,7 @@ class Ctx:
         self.seed = seed
         self.level = level
         self.t0 = time.time()
-        self.workdir = WORK / pid
+        self.workdir = WORK / f"{pid}-{os.getpid()}"
         if self.workdir.exists():
             shutil.rmtree(self.workdir, ignore_errors=True)
         self.workdir.mkdir(parents=True, exist_ok=True)
@@ -287,6 +287,9 @@ class Ctx:
             for pv in r.printed:
                 if isinstance(pv, list) and len(pv) >= 3 and pv[0] in ("REJECT", "DIVERGE"):
                     clause, idx = pv[1], pv[2]
+                    if isinstance(clause, str) and clause.startswith("machinery_"):
+                        self.machinery_errors.append(f"{module} shard {k} event {idx}: {clause}")
+                        continue
                     ev = shards[k][idx - 1] if isinstance(idx, int) and 1 <= idx <= len(shards[k]) else None
                     key = key_of(ev, clause) if (key_of and ev is not None) else {"clause": clause}
                     rj = Reject(self.pid, clause, key, ev, verdict=(pv[0] == "REJECT"), shard=k)
@@ -362,12 +365,12 @@ class Ctx:
         }
         if self.machinery_errors:
             ev["coverage"]["machinery_errors"] = self.machinery_errors[:10]
-        EVID.mkdir(exist_ok=True)
+        EVID.mkdir(parents=True, exist_ok=True)
         (EVID / f"{self.pid}.json").write_text(json.dumps(ev, indent=1, default=str))
         rc = 0
         if viol:
-            rdir = VERIF / "replays"
-            rdir.mkdir(exist_ok=True)
+            rdir = Path(os.environ.get("VERIF_REPLAY_DIR", str(VERIF / "replays")))
+            rdir.mkdir(parents=True, exist_ok=True)
             rp = rdir / f"{self.pid}-{self.tier}-{self.seed}.json"
             rp.write_text(
                 json.dumps(
